@@ -96,6 +96,7 @@ class FakeSock:
                 self.eof = True
             elif item[0] == "rst":
                 self.log.append(("X",))
+                self.was_reset = True
                 raise ConnectionResetError(errno.ECONNRESET, "Connection reset by peer")
         if n == 0:
             self.log.append(("R", 0, 0))
@@ -105,10 +106,18 @@ class FakeSock:
         self.log.append(("R", n, len(out)))
         return out
 
+    def recv_into(self, buffer, nbytes=0, flags=0):
+        mv = memoryview(buffer).cast("B")
+        data = self.recv(nbytes or len(mv))
+        mv[: len(data)] = data
+        return len(data)
+
     def send(self, data):
         self._tick()
         if self.closed:
             raise OSError(errno.EBADF, "Bad file descriptor")
+        if getattr(self, "was_reset", False):
+            raise ConnectionResetError(errno.ECONNRESET, "Connection reset by peer")
         if self.shut:
             raise BrokenPipeError(errno.EPIPE, "Broken pipe")
         self.send_calls = getattr(self, "send_calls", 0) + 1
@@ -135,6 +144,9 @@ class FakeSock:
         self.log.append(("S",))
         if self.closed:
             raise OSError(errno.EBADF, "Bad file descriptor")
+        if getattr(self, "was_reset", False):
+            # a connection that was reset is in state CLOSE: Linux refuses shutdown() on it
+            raise OSError(errno.ENOTCONN, "Transport endpoint is not connected")
         self.shut = True
 
     def close(self):
